@@ -13,6 +13,7 @@
 -/
 import ZlModel.Basic
 import ZlModel.Thresholds
+import ZlModel.Rsa
 namespace Zl.LL
 
 abbrev Oid := List Nat
@@ -112,6 +113,24 @@ def TOp.eval : TOp → Time → Time → Bool
   | .after, a, b => Time.after a b
   | .equal, a, b => a.sec == b.sec && a.nsec == b.nsec
 
+/-- what a condition can establish about the certificate: facts a later dereference / type assertion relies on -/
+inductive Fact
+  | ext (o : Oid)               -- the extension is present in `ExtensionsMap`
+  | intEq (f : Nat) (k : Int)   -- the integer field has this value (the dynamic type tag of `c.PublicKey`)
+  deriving DecidableEq, Repr
+
+/-- integer expressions (machine integers and `*big.Int`, both as unbounded integers: the fragment has no
+    arithmetic that can overflow). `none` = the Go expression panics. -/
+inductive IExp
+  | lit (k : Int)
+  | fld (f : Nat)                        -- an integer field of the certificate
+  | kfld (f : Nat) (tf : Nat) (k : Int)  -- a field of the key obtained by `c.PublicKey.(*T)`, T = type tag `k` of field `tf`:
+                                         -- when the dynamic type is another one the variable is a nil pointer and the read panics
+  | bitLen (e : IExp)                    -- `(*big.Int).BitLen`
+  | tmod (e : IExp) (k : Int)            -- Go's `%` on machine integers (truncated division), constant divisor
+  | emod (e : IExp) (k : Int)            -- `(*big.Int).Mod` (Euclidean), constant divisor
+  deriving DecidableEq, Repr
+
 inductive Cond
   | const (b : Bool)
   | bool (f : Nat)                          -- c.F
@@ -129,10 +148,20 @@ inductive Cond
   | anyI (f : Nat) (is : List Int)          -- some element of the integer list is one of `is`
   | ext (o : Oid)                           -- util.GetExtFromCert(c, o) != nil
   | crit (o : Oid)                          -- util.GetExtFromCert(c, o).Critical — panics when absent
+  | icmp (a : IExp) (c : Cmp) (b : IExp)    -- integer comparison (`key.N.BitLen() < 2048`, `x.Cmp(y) == 0` as `x == y`)
+  | primes752 (e : IExp)                    -- util.PrimeNoSmallerThan752(e): no prime of the regenerated table divides e
   | not (c : Cond)
   | and (a b : Cond)                        -- Go's short-circuit &&
   | or (a b : Cond)                         -- Go's short-circuit ||
   deriving Repr, DecidableEq
+
+def IExp.eval (v : View) : IExp → Option Int
+  | .lit k => some k
+  | .fld f => some (v.int f)
+  | .kfld f tf k => if v.int tf == k then some (v.int f) else none
+  | .bitLen e => (e.eval v).map (fun n => ((Zl.bitLen n.natAbs : Nat) : Int))
+  | .tmod e k => if k == 0 then none else (e.eval v).map (fun n => Int.tmod n k)
+  | .emod e k => if k == 0 then none else (e.eval v).map (fun n => n % k)
 
 /-- evaluation; `none` = the Go expression panics (nil dereference) -/
 def evalC (env : Env) (v : View) : Cond → Option Bool
@@ -152,6 +181,10 @@ def evalC (env : Env) (v : View) : Cond → Option Bool
   | .anyI f is => some ((v.list f).ints.any (fun i => is.contains i))
   | .ext o => some (v.ext? o).isSome
   | .crit o => v.ext? o
+  | .icmp a c b => match a.eval v, b.eval v with
+    | some x, some y => some (c.eval x y)
+    | _, _ => none
+  | .primes752 e => (e.eval v).map (fun n => primeNoSmallerThan752 Generated.primes n.natAbs)
   | .not c => (evalC env v c).map (!·)
   | .and a b => match evalC env v a with
     | none => none
@@ -165,6 +198,7 @@ def evalC (env : Env) (v : View) : Cond → Option Bool
 inductive Stmt
   | ret (s : Status)
   | ite (c : Cond) (t e : Stmt)
+  | assertInt (f : Nat) (k : Int) (s : Stmt)   -- the unchecked type assertion `key := c.PublicKey.(*T)` (T = tag `k` of field `f`): panics unless the tag is `k`, then goes on
   deriving Repr, DecidableEq
 
 def evalS (env : Env) (v : View) : Stmt → Option Status
@@ -173,11 +207,13 @@ def evalS (env : Env) (v : View) : Stmt → Option Status
     | none => none
     | some true => evalS env v t
     | some false => evalS env v e
+  | .assertInt f k s => if v.int f == k then evalS env v s else none
 
 /-- every status some path of the statement returns -/
 def Stmt.statuses : Stmt → List Status
   | .ret s => [s]
   | .ite _ t e => t.statuses ++ e.statuses
+  | .assertInt _ _ s => s.statuses
 
 /-- a translated rule: `CheckApplies` and `Execute` -/
 structure Rule where
@@ -206,16 +242,19 @@ def Rule.run (env : Env) (r : Rule) (v : View) : Outcome :=
 
 mutual
 /-- OIDs whose extension is present whenever the condition evaluates to `true` -/
-def Cond.posFacts : Cond → List Oid
-  | .ext o => [o]
-  | .crit o => [o]
+def Cond.posFacts : Cond → List Fact
+  | .ext o => [.ext o]
+  | .crit o => [.ext o]
+  | .int f .eq k => [.intEq f k]
+
   | .and a b => a.posFacts ++ b.posFacts
   | .or a b => a.posFacts.filter (fun o => b.posFacts.contains o)
   | .not c => c.negFacts
   | _ => []
 /-- … whenever it evaluates to `false` -/
-def Cond.negFacts : Cond → List Oid
-  | .crit o => [o]
+def Cond.negFacts : Cond → List Fact
+  | .crit o => [.ext o]
+  | .int f .ne k => [.intEq f k]
   | .or a b => a.negFacts ++ b.negFacts
   | .and a b => a.negFacts.filter (fun o => b.negFacts.contains o)
   | .not c => c.posFacts
@@ -223,37 +262,64 @@ def Cond.negFacts : Cond → List Oid
 end
 
 /-- the condition cannot panic when the extensions in `g` are present -/
-def Cond.safe (g : List Oid) : Cond → Bool
-  | .crit o => g.contains o
+def IExp.safe (g : List Fact) : IExp → Bool
+  | .kfld _ tf k => g.contains (.intEq tf k)
+  | .bitLen e => e.safe g
+  | .tmod e k => k != 0 && e.safe g
+  | .emod e k => k != 0 && e.safe g
+  | _ => true
+
+def Cond.safe (g : List Fact) : Cond → Bool
+  | .crit o => g.contains (.ext o)
+  | .icmp a _ b => a.safe g && b.safe g
+  | .primes752 e => e.safe g
   | .not c => c.safe g
   | .and a b => a.safe g && b.safe (a.posFacts ++ g)
   | .or a b => a.safe g && b.safe (a.negFacts ++ g)
   | _ => true
 
-def Stmt.safe (g : List Oid) : Stmt → Bool
+def Stmt.safe (g : List Fact) : Stmt → Bool
   | .ret _ => true
   | .ite c t e => c.safe g && t.safe (c.posFacts ++ g) && e.safe (c.negFacts ++ g)
+  | .assertInt f k s => g.contains (.intEq f k) && s.safe g
 
 /-- `CheckApplies` cannot panic, and `Execute` cannot panic on a certificate for which it answered true -/
 def Rule.safe (r : Rule) : Bool := r.applies.safe [] && r.body.safe r.applies.posFacts
 
 /-! ### which fields a term reads -/
 
+def IExp.fields : IExp → List Nat
+  | .lit _ => []
+  | .fld f => [f]
+  | .kfld f tf _ => [f, tf]
+  | .bitLen e | .tmod e _ | .emod e _ => e.fields
+
 def Cond.fields : Cond → List Nat
   | .bool f | .int f _ _ | .mask f _ | .strEq f _ | .isNil f | .len f _ _ | .anyS f _ | .anyO f _ | .anyI f _ => [f]
   | .strP f _ | .maskEq f _ _ | .time f _ _ => [f]
   | .time2 f _ g => [f, g]
+  | .icmp a _ b => a.fields ++ b.fields
+  | .primes752 e => e.fields
   | .not c => c.fields
   | .and a b | .or a b => a.fields ++ b.fields
   | _ => []
 def Stmt.fields : Stmt → List Nat
   | .ret _ => []
   | .ite c t e => c.fields ++ t.fields ++ e.fields
+  | .assertInt f _ s => f :: s.fields
 def Rule.fields (r : Rule) : List Nat := r.applies.fields ++ r.body.fields
 
 /-! ### mirror images: the same rule about another field / another extension -/
 
 /-- renaming of field ids and of extension OIDs inside a term (subjectAltName ↦ issuerAltName, …) -/
+def IExp.rename (ρ : Nat → Nat) : IExp → IExp
+  | .lit k => .lit k
+  | .fld f => .fld (ρ f)
+  | .kfld f tf k => .kfld (ρ f) (ρ tf) k
+  | .bitLen e => .bitLen (e.rename ρ)
+  | .tmod e k => .tmod (e.rename ρ) k
+  | .emod e k => .emod (e.rename ρ) k
+
 def Cond.rename (ρ : Nat → Nat) (σ : Oid → Oid) : Cond → Cond
   | .const b => .const b
   | .bool f => .bool (ρ f)
@@ -271,6 +337,8 @@ def Cond.rename (ρ : Nat → Nat) (σ : Oid → Oid) : Cond → Cond
   | .anyI f is => .anyI (ρ f) is
   | .ext o => .ext (σ o)
   | .crit o => .crit (σ o)
+  | .icmp a c b => .icmp (a.rename ρ) c (b.rename ρ)
+  | .primes752 e => .primes752 (e.rename ρ)
   | .not c => .not (c.rename ρ σ)
   | .and a b => .and (a.rename ρ σ) (b.rename ρ σ)
   | .or a b => .or (a.rename ρ σ) (b.rename ρ σ)
@@ -278,5 +346,6 @@ def Cond.rename (ρ : Nat → Nat) (σ : Oid → Oid) : Cond → Cond
 def Stmt.rename (ρ : Nat → Nat) (σ : Oid → Oid) : Stmt → Stmt
   | .ret s => .ret s
   | .ite c t e => .ite (c.rename ρ σ) (t.rename ρ σ) (e.rename ρ σ)
+  | .assertInt f k s => .assertInt (ρ f) k (s.rename ρ σ)
 
 end Zl.LL
